@@ -252,7 +252,7 @@ func c04Run(b *core.B) {
 				}
 			}
 		}
-		for _, a := range []string{`"ok"`, `"missing"`, `"<b>"`, "3", "0", "0 - 1"} {
+		for _, a := range []string{`"ok"`, `"missing"`, `"<b>"`, "3", "0", "0 - 1", "v_intmax", "9223372036854775807", "v_intmax - 1"} {
 			for _, a2 := range []string{`{}`, `{size: 2}`, `{size: "x"}`, `{trail: 5}`, `{size: 0 - 1, trail: "…"}`, `{layout: "ok"}`, `{layout: 5}`, `"s"`, "2", "[1, 2, 3]", "v_ints3", "v_arr3", "v_pints", "nil"} {
 				cell("helper:"+h, "<%= "+h+"("+a+", "+a2+") %>")
 			}
